@@ -390,7 +390,7 @@ class _Gen:
                      "super": self.parent_of(lv)}
         self.chain_bodies[lv] = []  # reserve: at most one `block.super` per level
         self.budget = max(self.budget, 4)
-        self.chain_bodies[lv] = self.block(depth, list(self.block_scope), parent_fl, blank=False)
+        self.chain_bodies[lv] = self.top(depth, parent_fl, self.block_scope)
         return [{"t": "out", "e": _path("block", "super"), "super_of": lv}]
 
     def item(self, depth: int, scope: list[tuple[str, str]], fl: dict[str, Any], blank: bool) -> list[dict[str, Any]]:  # noqa: PLR0911, PLR0912, PLR0915
@@ -475,13 +475,14 @@ class _Gen:
             return self.super_item(depth, fl)
         raise AssertionError(kind)
 
-    def top(self, depth: int, fl: dict[str, Any]) -> list[dict[str, Any]]:
-        """Top level of a template: mostly starts a loop nest right away."""
+    def top(self, depth: int, fl: dict[str, Any], scope: list[tuple[str, str]] | None = None) -> list[dict[str, Any]]:
+        """Top level of a template / block body: mostly starts a loop nest right away."""
         out: list[dict[str, Any]] = []
-        if self.i(0, 4):
+        scope = list(scope or [])
+        if depth < MAX_DEPTH and self.i(0, 4):
             self.budget -= 1
-            out.extend(self.loop(depth, [], fl, blank=False))
-        out.extend(self.block(depth, [], fl, blank=False))
+            out.extend(self.loop(depth, scope, fl, blank=False))
+        out.extend(self.block(depth, scope, fl, blank=False))
         return out
 
     def parent_of(self, level: str) -> str | None:
@@ -497,7 +498,7 @@ class _Gen:
         fl = {"iso": False, "forloop": False, "loopctx": None, "can_block": False,
               "super": f"L{self.levels - 1}"}
         self.budget = max(self.budget, 6)
-        self.chain_bodies[top] = self.block(depth, list(scope), fl, blank=False)
+        self.chain_bodies[top] = self.top(depth, fl, scope)
         for n in range(self.levels - 1, -1, -1):  # levels never reached through block.super
             if f"L{n}" not in self.chain_bodies:
                 self.chain_bodies[f"L{n}"] = [{"t": "text", "s": f"[L{n}]"}]
